@@ -82,6 +82,34 @@ def handle (st : St) : List Str → St × Str
           let st' := setErr (setSink st k r.1) k r.2.1
           (st', dump st' r.2.2)
       | _ => (st, str "bad-op")
+    else if op = str "etwrite" then
+      -- a write straight through the ErrorTracker in front of sink i (by Write or io.WriteString)
+      match rest with
+      | [i, _mode, data] =>
+        let k := natOf i
+        match st.sinks[k]? with
+        | none => (st, str "bad-op")
+        | some s =>
+          let r := s.write (unhex data)
+          let st' := setSink st k r.1
+          (st', dump st' (r.2.map Err.write))
+      | _ => (st, str "bad-op")
+    else if op = str "renew" then
+      -- the context's naming systems change in place and a new SnippetWriter is created on sink A
+      let st' := setErr st 0 none
+      (st', dump st' none)
+    else if op = str "body" then
+      -- executeBody over sink i: chunks written by the hooks reached, and whether the last one fails
+      match rest with
+      | i :: chunks :: hf :: _ =>
+        let k := natOf i
+        match st.sinks[k]? with
+        | none => (st, str "bad-op")
+        | some s =>
+          let r := executeBodyW s (unhexList chunks) (hf = ['1'])
+          let st' := setSink st k r.1
+          (st', dump st' (match r.2 with | .ok => none | .hook => some .exec | .write c => some (.write c)))
+      | _ => (st, str "bad-op")
     else if op = str "dup" then
       let st' := { setErr st 1 (st.errs.getD 0 none) with onB := true }
       (st', dump st' none)
